@@ -3,6 +3,9 @@
 
 #![allow(dead_code)]
 
+#[cfg(ragc_verif)]
+use ragc_common::verif::File;
+#[cfg(not(ragc_verif))]
 use std::fs::File;
 use std::io::{self, BufRead, BufReader, Read, Write};
 use std::path::Path;
